@@ -35,6 +35,7 @@
 #include <sys/stat.h>
 #include <fcntl.h>
 #include <dirent.h>
+#include <time.h>
 
 /* ------------------------------------------------------------------------------------------ interposition */
 FILE* __real_fopen(const char*, const char*);
@@ -553,11 +554,23 @@ static void run_range(char** lines, size_t lo, size_t hi) {
   while (i < hi) exec_op(lines, &i, hi);
 }
 
-static void rm_tmpdir(void) {
-  DIR* d = opendir(tmpdir); if (!d) return;
+static void rm_dir(const char* dir) {
+  DIR* d = opendir(dir); if (!d) return;
   struct dirent* de; char p[700];
-  while ((de = readdir(d))) { if (de->d_name[0] == '.') continue; snprintf(p, sizeof p, "%s/%s", tmpdir, de->d_name); unlink(p); }
-  closedir(d); rmdir(tmpdir);
+  while ((de = readdir(d))) { if (de->d_name[0] == '.') continue; snprintf(p, sizeof p, "%s/%s", dir, de->d_name); unlink(p); }
+  closedir(d); rmdir(dir);
+}
+static void rm_tmpdir(void) { rm_dir(tmpdir); }
+/* a run that died under a sanitizer never reached its atexit handler: sweep directories older than 15 minutes */
+static void sweep_stale(const char* base) {
+  DIR* d = opendir(base); if (!d) return;
+  struct dirent* de; char p[600]; struct stat sb; time_t now = time(NULL);
+  while ((de = readdir(d))) {
+    if (strncmp(de->d_name, "verif_file_", 11) != 0) continue;
+    snprintf(p, sizeof p, "%s/%s", base, de->d_name);
+    if (stat(p, &sb) == 0 && S_ISDIR(sb.st_mode) && now - sb.st_mtime > 900) rm_dir(p);
+  }
+  closedir(d);
 }
 
 int main(int argc, char** argv) {
@@ -570,6 +583,7 @@ int main(int argc, char** argv) {
   struct stat sb;
   if (stat("/dev/shm", &sb) == 0 && S_ISDIR(sb.st_mode) && access("/dev/shm", W_OK) == 0) base = "/dev/shm";
   if (!base || !*base) base = "/tmp";
+  sweep_stale(base);
   snprintf(tmpdir, sizeof tmpdir, "%s/verif_file_XXXXXX", base);
   if (!mkdtemp(tmpdir)) { snprintf(tmpdir, sizeof tmpdir, "/tmp/verif_file_XXXXXX"); if (!mkdtemp(tmpdir)) { perror("mkdtemp"); return 2; } }
   atexit(rm_tmpdir);
